@@ -48,6 +48,8 @@ type Scenario struct {
 	// each of that one's frames, on the same goroutine. It is part of what else the process is
 	// doing, never of what must be equal between runs.
 	Neighbour string `json:"neighbour,omitempty"`
+	// NoSerialWriter: the emulator is configured without a serial writer (Config.SerialWriter nil)
+	NoSerialWriter bool `json:"no_serial_writer,omitempty"`
 }
 
 // Trace is everything observable about a run.
@@ -150,7 +152,11 @@ func Run(s Scenario, romPath string) Trace {
 			defer func() { os.Stdout = stdout; null.Close() }()
 		}
 	}
-	gb := gameboy.New(gameboy.Config{RomFilename: romPath, DisableVideoOutput: !s.Video, DisableAudioOutput: !s.Audio, SerialWriter: serial, DebugCPU: s.DebugCPU, DebugLCD: s.DebugLCD})
+	cfg := gameboy.Config{RomFilename: romPath, DisableVideoOutput: !s.Video, DisableAudioOutput: !s.Audio, SerialWriter: serial, DebugCPU: s.DebugCPU, DebugLCD: s.DebugLCD}
+	if s.NoSerialWriter {
+		cfg.SerialWriter = nil
+	}
+	gb := gameboy.New(cfg)
 	neighbour := func() {}
 	if s.Neighbour != "" {
 		nb := gameboy.New(gameboy.Config{RomFilename: s.Neighbour, DisableVideoOutput: true, DisableAudioOutput: true})
